@@ -245,6 +245,12 @@ func (v *View) checkC09(res *Result) {
 				res.viol("C09", "goroutine-leak", "goroutine-leak:"+fr, fmt.Sprintf("%d goroutines with library frames remain after every instance was stopped and all calls returned: %s", e.N, e.S), idx)
 			}
 		}
+		// a watch the store handed to the instance and that the instance never stopped is
+		// background activity that goes on after the stop (with the real client: a subscription
+		// that stays on the connection)
+		if e.Kind == "final.watchers" && e.N > 0 {
+			res.viol("C09", "watch-leak", "watch-left-open-after-stop", fmt.Sprintf("%s: %d watch(es) it was handed were never stopped, although the instance is stopped and all calls have returned", e.Inst, e.N), idx)
+		}
 	}
 }
 
@@ -407,7 +413,11 @@ func (v *View) checkC03(res *Result) {
 		down := t.Down >= 0 && t.DownVT <= dl
 		dvt, dok := firstDemoteAfter(owner, m.Seq)
 		if !down {
-			report("deposed-bound", "still-leader-after:"+kind, fmt.Sprintf("%s: record %s at %v; still reporting leadership at %v (bound H+2To=%v)", owner, kind, m.VT, dl, bound), m.Seq)
+			sig := "still-leader-after:" + kind
+			if v.startCtxEnded(owner, m.Seq) {
+				sig += ":start-context-ended" // the application ended the Start context and made no stop call
+			}
+			report("deposed-bound", sig, fmt.Sprintf("%s: record %s at %v; still reporting leadership at %v (bound H+2To=%v)", owner, kind, m.VT, dl, bound), m.Seq)
 		} else if !dok || dvt > dl {
 			report("deposed-bound", "no-demote-callback-after:"+kind+":"+t.Cause, fmt.Sprintf("%s: record %s at %v; flag down at %v (%s) but demotion callback not run by %v", owner, kind, m.VT, t.DownVT, t.Cause, dl), m.Seq)
 		} else {
